@@ -32,8 +32,9 @@ class Frame(object):
 
 
 class CSummary(object):
-    def __init__(self, tu, fname, opaque=(), inline=(), depth=3, inline_static=True):
+    def __init__(self, tu, fname, opaque=(), inline=(), depth=3, inline_static=True, keep_ptr_casts=False):
         self.tu = tu
+        self.keep_ptr_casts = keep_ptr_casts
         self.qual = fname
         self.func = tu.func(fname)
         self.opaque = set(opaque)
@@ -87,7 +88,7 @@ class CSummary(object):
             sub = C.kids(n)[-1]
             inner = self.alts(sub, pc)
             # casts between pointer types / to void are transparent for the analysis; arithmetic casts are kept (they change values)
-            if '*' in ty or ty in ('void', 'gpointer', 'gconstpointer'):
+            if ('*' in ty and not self.keep_ptr_casts) or ty in ('void', 'gpointer', 'gconstpointer'):
                 return inner
             return [(g, '(%s)%s' % (ty, wrap(t))) for g, t in inner]
         if k == 'IntegerLiteral':
@@ -651,16 +652,19 @@ def compare_atom(l, op, r):
                 l, r = r, l
             f = atom('%s == %s' % (l, r))
         return f if op == '==' else neg(f)
+    # all four orderings are expressed with the one atom `a < b`
+    if op == '<':
+        return atom('%s < %s' % (l, r))
     if op == '>':
         return atom('%s < %s' % (r, l))
     if op == '>=':
-        return atom('%s <= %s' % (r, l))
-    return atom('%s %s %s' % (l, op, r))
+        return neg(atom('%s < %s' % (l, r)))
+    return neg(atom('%s < %s' % (r, l)))
 
 
 def summarise(ctx, rel, fname, **kw):
     cache = ctx.__dict__.setdefault('_cgsa_cache', {})
-    key = (rel, fname, tuple(sorted(kw.get('opaque', ()))), tuple(sorted(kw.get('inline', ()))), kw.get('depth', 3), kw.get('inline_static', True))
+    key = (rel, fname, tuple(sorted(kw.get('opaque', ()))), tuple(sorted(kw.get('inline', ()))), kw.get('depth', 3), kw.get('inline_static', True), kw.get('keep_ptr_casts', False))
     if key not in cache:
         cache[key] = CSummary(ctx.c.tu(rel), fname, **kw)
     return cache[key]
